@@ -6,8 +6,9 @@
 (* that length agrees with the traversal, C16): it states what the            *)
 (* implemented filters RETURN, in the region where stick and Twig agree;      *)
 (* OOM elsewhere (non-ASCII case mapping, hashes with several entries whose   *)
-(* order Go does not fix, results off the number grid, filters stick has not  *)
-(* implemented: slice, sort, split, striptags, format, nl2br, number_format). *)
+(* order Go does not fix, results off the number grid).  The filters stick has *)
+(* registered and not implemented (slice, sort, split, striptags, format,     *)
+(* nl2br, number_format, ...) pass their value through: PassThrough.          *)
 EXTENDS Exec, FiniteSets
 
 FAscii(bs) == \A i \in 1..Len(bs) : bs[i] < 128
@@ -46,6 +47,32 @@ LessB(a, b) == \E k \in 0..Len(a) : /\ k <= Len(b) /\ SubSeq(a, 1, k) = SubSeq(b
 SortedKeys(ps) == LET ks == {ps[i][1] : i \in 1..Len(ps)} IN
                   IF Cardinality(ks) # Len(ps) THEN <<>>
                   ELSE CHOOSE s \in [1..Len(ps) -> ks] : (\A i \in 1..(Len(ps) - 1) : LessB(s[i], s[i + 1]))
+
+(* encoding/json: a string literal (ASCII input): the quote, the backslash, < > & and control characters are escaped *)
+JHex4(b) == <<92, 117, 48, 48, HexDigit(b \div 16) + (IF b \div 16 >= 10 THEN 32 ELSE 0), HexDigit(b % 16) + (IF b % 16 >= 10 THEN 32 ELSE 0)>>
+JChar(b) == CASE b = 34 -> <<92, 34>> [] b = 92 -> <<92, 92>> [] b = 10 -> <<92, 110>> [] b = 13 -> <<92, 114>> [] b = 9 -> <<92, 116>>
+              [] b \in {60, 62, 38} \/ b < 32 -> JHex4(b) [] OTHER -> <<b>>
+RECURSIVE JStr(_)
+JStr(bs) == IF bs = <<>> THEN <<>> ELSE JChar(bs[1]) \o JStr(Tail(bs))
+JQuoted(bs) == <<34>> \o JStr(bs) \o <<34>>
+(* json.Marshal of a template value; <<-1>> where not decided (non-ASCII strings, numbers off the grid or beyond 1e21, hashes with
+   duplicate keys).  A hash is a Go map: keys in byte order *)
+RECURSIVE JsonOf(_)
+JsonOf(v) ==
+  CASE v.t = "null" -> S2B("null")
+    [] v.t = "bool" -> IF v.b THEN S2B("true") ELSE S2B("false")
+    [] v.t = "num" -> (IF v.q > 1000000 * Scale \/ v.q < 0 - 1000000 * Scale THEN <<-1>> ELSE NumToBytes(v.q))
+    [] v.t = "str" -> IF FAscii(v.s) THEN JQuoted(v.s) ELSE <<-1>>
+    [] v.t = "arr" -> LET ps == [i \in 1..Len(v.els) |-> JsonOf(v.els[i])] IN
+                      IF \E i \in 1..Len(ps) : BytesOOM(ps[i]) THEN <<-1>> ELSE <<91>> \o JoinB(ps, <<44>>) \o <<93>>
+    [] v.t = "hash" -> LET ks == SortedKeys(v.pairs)
+                           val(k) == v.pairs[CHOOSE i \in 1..Len(v.pairs) : v.pairs[i][1] = k][2]
+                           ps == [i \in 1..Len(ks) |-> JsonOf(val(ks[i]))] IN
+                       IF Len(ks) # Len(v.pairs) \/ (\E i \in 1..Len(ks) : BytesOOM(ps[i]) \/ ~FAscii(ks[i])) THEN <<-1>>
+                       ELSE <<123>> \o JoinB([i \in 1..Len(ks) |-> JQuoted(ks[i]) \o <<58>> \o ps[i]], <<44>>) \o <<125>>
+    [] OTHER -> <<-1>>
+(* filters stick registers and has not implemented: the value passes through unchanged (a named deviation from Twig) *)
+PassThrough == {"slice", "sort", "split", "striptags", "format", "nl2br", "number_format", "convert_encoding", "date_modify"}
 
 Strish(v) == v.t \in {"str", "num", "bool", "null"}        \* values whose string form is decided
 Bs(v) == CoerceBytes(v)
@@ -109,6 +136,8 @@ FilterRef(name, v, args) ==
                                               [] OTHER -> (IF n.q >= 0 THEN (IF 2 * frac >= Scale THEN fl + 1 ELSE fl)
                                                            ELSE (IF 2 * frac > Scale THEN fl + 1 ELSE fl))       \* half away from zero
                                    IN IF r = 0 /\ n.q < 0 THEN OOM ELSE IntV(r)         \* -0
+    [] name = "json_encode" -> LET j == JsonOf(v) IN IF BytesOOM(j) THEN OOM ELSE Str(j)
+    [] name \in PassThrough -> v
     [] OTHER -> OOM
 Decided(v) == ~IsOOM(v)
 =============================================================================
